@@ -1043,12 +1043,15 @@ def _val_to_numpy(
             arrow,
             pa.ChunkedArray,
         )
-    except TypeError:
+    except (TypeError, pa.ArrowInvalid):
+        # not representable as an Arrow array (e.g. strings mixed with NaN)
         is_chunked = False
 
     if is_chunked:
         # chunks with nulls, strings or booleans cannot be converted zero-copy
         val_list = [chunk.to_numpy(zero_copy_only=False) for chunk in arrow.chunks]
+    elif isinstance(val, pa.Array):
+        val_list = [val.to_numpy(zero_copy_only=False)]
     elif hasattr(val, "to_numpy"):
         val_list = [val.to_numpy()]  # type: ignore
     else:
